@@ -482,6 +482,11 @@ func (s *spanScreen) clampRegion(r Region) Region {
 }
 
 func (s *spanScreen) moveCursor(dx, dy int, wrap bool, scroll bool) {
+	// The region scrolls only when the cursor leaves it through its top or
+	// bottom row; outside the region the cursor just moves (or stops at the
+	// screen border).
+	startY := s.cursorPos.Y
+	scroll = scroll && startY >= s.topMargin && startY <= s.bottomMargin
 	if wrap && s.autoWrap {
 		s.cursorPos.X += dx
 		for s.cursorPos.X < 0 {
@@ -507,9 +512,8 @@ func (s *spanScreen) moveCursor(dx, dy int, wrap bool, scroll bool) {
 			s.scroll(s.topMargin, s.bottomMargin, s.bottomMargin-s.cursorPos.Y)
 			s.cursorPos.Y = s.bottomMargin
 		}
-	} else {
-		s.cursorPos.Y = clamp(s.cursorPos.Y, 0, s.size.Y-1)
 	}
+	s.cursorPos.Y = clamp(s.cursorPos.Y, 0, s.size.Y-1)
 	if s.cursorPos.Y >= s.size.Y {
 		panic(fmt.Sprintf("moveCursor outside, %v %v  %v, %v, %v, %v", s.cursorPos, s.size, dx, dy, wrap, scroll))
 	}
